@@ -37,12 +37,14 @@ try:
     assert rc == 0, out
     for p in [prop] + extra:
         rc, out = sh("python3 check.py %s --tier quick" % p, cwd="/verif", timeout=3000, env=dict(os.environ))
-        viol = [l for l in out.splitlines() if l.startswith("VIOLATION") or l.startswith("DISAGREEMENT") or l.startswith("PROOF-STEP")]
+        viol = [l for l in out.splitlines() if l.startswith("VIOLATION") or l.startswith("DISAGREEMENT")]
         results[p] = {"exit": rc, "lines": viol[:6]}
 finally:
     sh("git -C /repo checkout -- .")
 meta["checks"] = results
-meta["caught_by"] = [p for p, r in results.items() if r["exit"] == 1]
+def real_violation(r):
+    return any(l.startswith("VIOLATION") and "-proof.json" not in l for l in r["lines"]) or any(l.startswith("DISAGREEMENT") for l in r["lines"])
+meta["caught_by"] = [p for p, r in results.items() if r["exit"] == 1 and real_violation(r)]
 dst = "/verif/seeded/%s-%s" % (prop, m)
 os.makedirs(dst, exist_ok=True)
 for f in ("patch.diff", "demo.rs", "README.md"):
